@@ -8,18 +8,20 @@ import common as C
 
 PID = "C10"
 DRIVER = [("C10", "TfPwaV.Gen.PhspF", "PhspF.handle")]
-LEAN_TARGETS = ["TfPwaV.Props.C10", "TfPwaV.Props.C10b", "TfPwaV.Gen.PhspF", "TfPwaV.Gen.KinF"]
-PROP_MODULES = ["TfPwaV.Props.C10", "TfPwaV.Props.C10b"]
-ALL_MODULES = ["TfPwaV.Proofs.Phsp", "TfPwaV.Proofs.PhspMom", "TfPwaV.Proofs.PhspTree", "TfPwaV.Proofs.PhspShell", "TfPwaV.Props.C10", "TfPwaV.Props.C10b", "TfPwaV.Proofs.Kin", "TfPwaV.Proofs.ScalarR"]
+LEAN_TARGETS = ["TfPwaV.Props.C10", "TfPwaV.Props.C10b", "TfPwaV.Props.C10c", "TfPwaV.Props.C10d", "TfPwaV.Gen.PhspF", "TfPwaV.Gen.KinF"]
+PROP_MODULES = ["TfPwaV.Props.C10", "TfPwaV.Props.C10b", "TfPwaV.Props.C10c", "TfPwaV.Props.C10d"]
+ALL_MODULES = ["TfPwaV.Proofs.Phsp", "TfPwaV.Proofs.PhspMom", "TfPwaV.Proofs.PhspTree", "TfPwaV.Proofs.PhspShell", "TfPwaV.Proofs.PhspOpt", "TfPwaV.Proofs.PhspChain", "TfPwaV.Props.C10", "TfPwaV.Props.C10b", "TfPwaV.Props.C10c", "TfPwaV.Props.C10d", "TfPwaV.Proofs.Kin", "TfPwaV.Proofs.ScalarR", "TfPwaV.Props.C20f", "TfPwaV.Proofs.Sampler"]
 ASSUMPTIONS = [
     "uniform random numbers are an INPUT of the model (lists of draws, one per tf.random.uniform call); the harness replaces tf.random.uniform in its own process by a seeded stream and feeds the same numbers to the Float instance of templates/Phsp.lean.in",
     "theorems are over the reals for the model with r32 = id, i.e. get_p evaluated in double precision for Python-float arguments (the tree after fix_getp_float32.diff); on a tree where get_p rounds p2 through float32 the Float model reproduces that rounding (observed by the harness) and the deviation is reported by the search under the key get_p:float32-python-scalars",
     "acceptance weight in [0,1] is proved on the domain the generator itself produces (every uniform number in [0,1]); on the bare box get_mass_range() the bound is false (counter-example theorem weight_exceeds_one_off_domain) - only cal_max_weight() evaluates weights there",
     "on-shell / momentum-sum theorems: exact over the reals; the mass-shell clause for boosted particles needs the regular branch of LorentzVector.boost (1e-14 < |v|^2 < 1), the momentum sum does not",
-    "nested chains: momentum sum (chain_momentum_sum), mass shells of all final particles (chain_on_shell), every intermediate state on its fixed mass shell and equal to the sum of the momenta below it (chain_structure, chain_intermediate_mass) are proved for EVERY nesting by structural induction, assuming each node's generator output adds up to (m_node,0,0,0), is on the daughters' mass shells with positive energies, and the momentum of every nested daughter is in the regular boost branch 1e-14 < |v|^2 < 1",
+    "nested chains: momentum sum (chain_momentum_sum), mass shells of all final particles (chain_on_shell), every intermediate state on its fixed mass shell and equal to the sum of the momenta below it (chain_structure, chain_intermediate_mass) are proved for EVERY nesting by structural induction, and (chain_on_shell_full, Props/C10d.lean) for the COMPOSITION _restruct_pi o generate_momentum: the per-node hypothesis GoodNode is discharged for what generate_momentum returns (momentum_sum, on_shell, generated_energy_positive). Hypotheses left = the code's regime per node (NodeInput): non-negative daughter masses, positive ordered intermediate masses (what generate_mass produces, domain_is_chain), cos-theta uniforms in [0,1], regular boost branch 1e-14 < |v|^2 < 1 at every recoil boost and at the boost by every nested daughter's momentum, first two-body step with q > 0 or massive daughters (no zero four-vector)",
+    "keyword paths of PhaseSpaceGenerator.generate(N, force, flatten, importances) are modelled by generateOpt (generate = its force=True, flatten=True instance, theorem generateOpt_default) and compared on the recorded uniform stream; the model mirrors the code as it is, including that refill batches call flatten_mass(mass2) with the DEFAULT importances=True even when generate was called with importances=False (first batch without, refills with the importance factor: the accepted sample of that opt-in path is a mixture of two densities; no default caller passes importances=False, reported as an observation, not alarmed)",
+    "accepted density: accept_count_grid / accepted_density are measure-free counting statements on the uniform grid j/K (reusing grid_count / accept_fraction of Props/C20f.lean); that tf.random.uniform is uniform and independent is NOT proved (chi^2 tests)",
     "NOT proved, validated only: termination of the refill loop with probability 1; statistical flatness of the accepted sample (chi^2 tests of the Dalitz plot and of mass spectra against independently integrated phase-space spectra, false-alarm probability <= 1e-9 per test in the chi^2 approximation); IEEE rounding (double-precision clauses are checked on the implementation with stated tolerances)",
     "mass_generator[i] (user-supplied proposal for the i-th intermediate mass, used by config_loader/sample.py to importance-sample resonances) is outside the model: the code draws M_{i+1} from an arbitrary user distribution g_i and mass_importances applies NO 1/g_i correction (the `else: pass` branch), so by design the accepted events follow prod q_i * prod g_i, not flat phase space; the consumer reweights. What still applies: weight_le_one holds for ANY mass point of the domain M_i + r_{i+1} <= M_{i+1} <= b_i however it was drawn (a user generator that leaves [a,b] is not covered); momentum_sum / on_shell do not depend on how masses were drawn",
-    "cal_max_weight() (optional, cal_max=True paths): modelled as m_wtMax *= 1.001 * get_weight(x*) with the point x* returned by scipy.optimize.minimize as a PARAMETER (calWtMax, getWeightCal; correspondence feeds the recorded x*). Proved: it only rescales the weight (calmax_rescales) and weight <= 1 afterwards IFF x* is within 0.1% of the global maximum (calmax_weight_le_one_iff), with an explicit counter-example for a non-optimal x*. That scipy finds the global maximum is NOT verified and is in fact often false on the implementation (L-BFGS-B with absolute pgtol=1e-5 on a function of size <= 1e-3 stops at its random start for n >= 5; NaN/flat starts for massless or near-threshold decays; the optimiser also roams the unphysical part of the mass_range box): e.g. PhaseSpaceGenerator(m0, 6 daughters with Q/m0 = 0.46).cal_max_weight() shrinks wtMax by 1e-19 and weights reach 1e15. This is reported as a candidate finding (key cal_max_weight:weight-range), not alarmed by default (default paths never call cal_max_weight); VERIF_C10_CALMAX=1 adds the scan to the search",
+    "cal_max_weight() DECIDED (round 4): it is reachable only through opt-in arguments - generate_phsp(cal_max=True), generate_phsp_p(cal_max=True), generate_toy(cal_phsp_max=True), generate_toy_p(cal_phsp_max=True), AfterGenerator/ChainGenerator.cal_max_weight() called by the user (all defaults False; grep over /repo: no other caller, only tests pass True) - so it stays OUT of the default alarm set. On those paths a weight above the returned maximum DOES occur on the implementation: PhaseSpaceGenerator(3.0, [0.1,0.2,0.3,0.4,0.5,0.1]).cal_max_weight() with the harness stream Philox(2) shrinks wtMax 1.496 -> 3.9e-8 and 75% of the weights of generate(20000, flatten=False) exceed 1 (max 5.7e4), while streams 1 and 3 give max weight 0.98 (L-BFGS-B, absolute pgtol 1e-5 on a function of size <= 1e-3, stops at its random start). Model: m_wtMax *= 1.001 * get_weight(x*) with the point x* returned by scipy.optimize.minimize as a PARAMETER (calWtMax, getWeightCal; correspondence feeds the recorded x*). Proved: it only rescales the weight (calmax_rescales) and weight <= 1 afterwards IFF x* is within 0.1% of the global maximum (calmax_weight_le_one_iff), explicit counter-example for a non-optimal x* (calmax_weight_exceeds_one_example); set_decay's own wtMax is already a proven bound (weight_le_one), so cal_max_weight can only trade safety for efficiency. Candidate finding key cal_max_weight:weight-range; VERIF_C10_CALMAX=1 adds the scan to the search",
 ]
 
 MASS_CHOICES = [0.0, 0.000511, 0.139, 0.493, 0.938, 1.5]
@@ -396,6 +398,55 @@ def correspond(ctx, res):
             gen_check(bad, stats, "generate", P, m0, (3e-7 if (f32 and len(mi) == 2) else 1e-12) * cq, [m0, mi, N], st.calls))
     res.coverage["generate_runs_skipped_too_large_for_model"] = skipped_big
 
+    # (d2) every keyword path of generate(N, force, flatten, importances) (model generateOpt) and applications.gen_mc
+    #      (model genMc): same stream -> same weights / accepted events / number of refills / momenta
+    kw_runs = 0
+    KW = [(True, False, True), (True, True, False), (False, True, True), (True, False, False), (False, True, False), (False, False, True)]
+    osets = mass_sets(rng, 6 if ctx.quick else 30)
+    for k, (m0, mi) in enumerate(osets):
+        n = len(mi)
+        for kk, (imp_, force_, flat_) in enumerate(KW):
+            N = [1, 7, 60][(k + kk) % 3]
+            if n >= 5 and force_ and flat_:
+                N = min(N, 7)
+            g = ph.PhaseSpaceGenerator(m0, mi)
+            try:
+                with Stream(rng) as st, time_limit(GEN_LIMIT):
+                    out_ = g.generate(N, force=force_, flatten=flat_, importances=imp_)
+            except ImplTimeout as e:
+                bad.append({"what": "generate(keywords) did not return", "detail": str(e), "info": [m0, mi, N, imp_, force_, flat_]})
+                break
+            if flat_:
+                wts, pi = np.zeros(0), out_
+            else:
+                wts, pi = out_
+                wts = np.broadcast_to(np.asarray(wts.numpy(), dtype=np.float64), (N,))   # two-body: a scalar
+            P = np.stack([x.numpy() for x in pi], 1)
+            nnum = int(sum(c.size for c in st.calls))
+            if nnum > 400000:
+                continue
+            cq = 1.0 + m0 / (m0 - sum(mi))
+            kw_runs += 1
+            add("geno %s %d %d %d %d %d " % (F, int(imp_), int(force_), int(flat_), N, n) + enc([m0] + mi) + " " + enc_draws(st.calls),
+                geno_check(bad, stats, P, wts, m0, N, force_, flat_, n, (3e-7 if (f32 and n == 2) else 1e-12) * cq,
+                           [m0, mi, N, {"importances": imp_, "force": force_, "flatten": flat_}], st.calls))
+    from tf_pwa.applications import gen_mc
+    for k, (m0, mi) in enumerate(osets[:4] if ctx.quick else osets[:12]):
+        N = [7, 1, 40][k % 3] if len(mi) < 5 else 3
+        try:
+            with Stream(rng) as st, time_limit(GEN_LIMIT):
+                pf = np.asarray(gen_mc(m0, mi, N), dtype=np.float64)
+        except ImplTimeout as e:
+            bad.append({"what": "gen_mc did not return", "detail": str(e), "info": [m0, mi, N]})
+            break
+        if int(sum(c.size for c in st.calls)) > 400000:
+            continue
+        kw_runs += 1
+        cq = 1.0 + m0 / (m0 - sum(mi))
+        add("genmc %s %d %d " % (F, N, len(mi)) + enc([m0] + mi) + " " + enc_draws(st.calls),
+            genmc_check(bad, stats, pf, m0, N * len(mi), (3e-7 if (f32 and len(mi) == 2) else 1e-12) * cq, [m0, mi, N]))
+    res.coverage["generate_keyword_and_gen_mc_runs"] = kw_runs
+
     # (e) nested chains
     for k, (m0, mi) in enumerate(NESTED if not ctx.quick else NESTED[:5]):
         N = [7, 300, 1, 50, 20][k % 5] if ctx.quick else [7, 1000, 1, 2000][k % 4]
@@ -476,6 +527,65 @@ def gen_check(bad, stats, tag, P, m0, tol, info, calls, chain=False):
         if not e <= tol:
             j = int(np.argmax(np.max(np.abs(mv - P).reshape(P.shape[0], -1), -1)))
             bad.append({"what": tag, "err": e, "tol": tol, "event": j, "model": mv[j].reshape(-1)[:12].tolist(), "impl": P[j].reshape(-1)[:12].tolist(), "info": info})
+    return fn
+
+
+def geno_check(bad, stats, P, wts, m0, N, force, flatten, n, tol, info, calls):
+    """answer of `geno`: ok nTotal nUnused nEvents nWeights weights... momenta..."""
+    tag = "generate(force/flatten/importances)"
+
+    def fn(out):
+        stats["n"][tag] = stats["n"].get(tag, 0) + 1
+        toks = out.split()
+        if not toks or toks[0] != "ok" or len(toks) < 5:
+            bad.append({"what": tag, "model": out[:200], "info": info, "draw_shapes": [int(c.size) for c in calls][:40]})
+            return
+        unused, nev, nw = int(toks[2]), int(toks[3]), int(toks[4])
+        rest = toks[5:]
+        if unused != 0:
+            bad.append({"what": tag + ": model did not consume every tf.random.uniform call of the implementation", "unused": unused, "info": info})
+            return
+        if nev != P.shape[0] or nw != wts.size or len(rest) != nw + P.size:
+            bad.append({"what": tag + ": number of events / weights", "model": [nev, nw], "impl": [int(P.shape[0]), int(wts.size)], "info": info})
+            return
+        # what the theorems exact_count_all_paths state, on the implementation's own output
+        if ((force or not flatten or n == 2) and P.shape[0] != N) or P.shape[0] > N or (not flatten and wts.size != N):
+            bad.append({"what": tag + ": count contract", "impl_events": int(P.shape[0]), "N": N, "info": info})
+            return
+        mv = dec(rest)
+        mw, mp = mv[:nw], mv[nw:].reshape(P.shape)
+        e = float(np.max(np.abs(mp - P))) / m0 if P.size else 0.0
+        if nw:
+            e = max(e, float(np.max(np.abs(mw - wts) / np.maximum(np.abs(wts), 1e-3))))
+        if not np.isfinite(e):
+            e = float("inf")
+        stats["worst"][tag] = max(stats["worst"].get(tag, 0.0), e)
+        if not e <= tol:
+            bad.append({"what": tag, "err": e, "tol": tol, "model_w": mw[:6].tolist(), "impl_w": wts[:6].tolist(),
+                        "model": mp.reshape(-1)[:8].tolist(), "impl": P.reshape(-1)[:8].tolist(), "info": info})
+    return fn
+
+
+def genmc_check(bad, stats, pf, m0, nrows, tol, info):
+    tag = "applications.gen_mc"
+
+    def fn(out):
+        stats["n"][tag] = stats["n"].get(tag, 0) + 1
+        toks = out.split()
+        if not toks or toks[0] != "ok":
+            bad.append({"what": tag, "model": out[:200], "info": info})
+            return
+        if int(toks[1]) != pf.shape[0] or pf.shape != (nrows, 4) or len(toks) - 2 != pf.size:
+            bad.append({"what": tag + ": number of rows", "model": int(toks[1]), "impl": list(pf.shape), "expected_rows": nrows, "info": info})
+            return
+        mv = dec(toks[2:]).reshape(pf.shape)
+        e = float(np.max(np.abs(mv - pf))) / m0 if pf.size else 0.0
+        if not np.isfinite(e):
+            e = float("inf")
+        stats["worst"][tag] = max(stats["worst"].get(tag, 0.0), e)
+        if not e <= tol:
+            j = int(np.argmax(np.max(np.abs(mv - pf), -1)))
+            bad.append({"what": tag, "err": e, "tol": tol, "row": j, "model": mv[j].tolist(), "impl": pf[j].tolist(), "info": info})
     return fn
 
 
@@ -900,7 +1010,46 @@ def case_config(name, N, sseed, f32):
     return fails, {"sum": e, "gamma2": g2}
 
 
-CASES = {"gen_mc": case_gen_mc, "config": case_config, "generate": case_generate, "nested": case_nested, "weight": case_weight, "dalitz": case_dalitz, "m12": case_m12}
+def case_keywords(m0, mi, N, sseed, imp, force, flatten, f32):
+    """generate(N, force, flatten, importances): count contract of every keyword path, weights in [0,1], events physical"""
+    from tf_pwa import phasespace as ph
+    fails = []
+    info = "PhaseSpaceGenerator(%r, %r).generate(%d, force=%r, flatten=%r, importances=%r) [stream %d]" % (m0, mi, N, force, flatten, imp, sseed)
+    with Stream(case_rng(sseed)):
+        out = ph.PhaseSpaceGenerator(m0, mi).generate(N, force=force, flatten=flatten, importances=imp)
+    n = len(mi)
+    if flatten:
+        pi, w = out, None
+    else:
+        w, pi = out
+        w = np.asarray(w.numpy(), dtype=np.float64).reshape(-1)
+    if len(pi) != n:
+        fails.append(("generate:count", "%s returned %d momenta arrays for %d daughters" % (info, len(pi), n)))
+        return fails, {}
+    shapes = sorted(set(tuple(int(d) for d in x.shape) for x in pi))
+    if len(shapes) != 1 or len(shapes[0]) != 2 or shapes[0][1] != 4:
+        fails.append(("generate:count", "%s returned arrays of shapes %s" % (info, shapes)))
+        return fails, {}
+    nev = shapes[0][0]
+    exact = force or (not flatten) or n == 2
+    if (exact and nev != N) or nev > N:
+        fails.append(("generate:count", "%s returned %d events (%s %d expected)" % (info, nev, "exactly" if exact else "at most", N)))
+        return fails, {}
+    if w is not None:
+        if n > 2 and w.size != N:
+            fails.append(("generate:count", "%s returned %d weights for %d events" % (info, w.size, N)))
+        ww = w[np.isfinite(w)] if n > 2 else w
+        if ww.size and (float(np.max(ww)) > 1.0 + 1e-9 or float(np.min(ww)) < -1e-12):
+            fails.append(("get_weight:range", "%s: weights in [%.17g, %.17g]" % (info, float(np.min(ww)), float(np.max(ww)))))
+    P = np.stack([np.asarray(x.numpy(), dtype=np.float64) for x in pi], 1)
+    st_ = {}
+    if nev and np.all(np.isfinite(P)):
+        st_ = check_events(P, m0, mi, "generate", f32, fails, info)
+    st_["events"] = nev
+    return fails, st_
+
+
+CASES = {"keywords": case_keywords, "gen_mc": case_gen_mc, "config": case_config, "generate": case_generate, "nested": case_nested, "weight": case_weight, "dalitz": case_dalitz, "m12": case_m12}
 
 
 def guarded(kind, args):
@@ -946,6 +1095,14 @@ def search(ctx, res):
     for (m0, mi) in [(5.27934, [0.13957, 0.49368, 0.13957]), (1.77686, [0.0, 0.13957, 0.13957, 0.13957]), (3.0969, [0.000511, 0.000511]),
                      (0.9 + 3e-7, [0.3, 0.3, 0.3]), (10, [3, 2, 1]), (4.18, [0.938, 0.938, 0.139, 0.139, 0.139, 0.0])]:
         run_case(res, "generate", (m0, mi, 1000 if len(mi) < 6 else 200, base + nc, f32), stats)
+        nc += 1
+    # (1b) the non-default keyword paths of generate (force / flatten / importances)
+    for k, (m0, mi) in enumerate(mass_sets(rng, 24 if not deep else 120)):
+        imp_, force_, flat_ = [(True, False, True), (True, True, False), (False, True, True), (False, False, True), (False, True, False), (True, False, False)][k % 6]
+        N = [1, 7, 400][(k // 6) % 3]
+        if len(mi) >= 5 and N > 7 and force_ and flat_:
+            N = 50
+        run_case(res, "keywords", (m0, mi, N, base + nc, imp_, force_, flat_, f32), stats)
         nc += 1
     # (2) nested chains
     for k, (m0, mi) in enumerate(NESTED):
@@ -1013,7 +1170,7 @@ def replay(ctx, payload):
         print("replay file names a broken obligation, not a failing input: %s" % str(payload.get("broken"))[:3000])
         return 1
     args = list(r["args"])
-    if kind in ("generate", "nested", "gen_mc", "config"):
+    if kind in ("generate", "nested", "gen_mc", "config", "keywords"):
         args[-1] = bool(f32_variant())   # attribute float32-size deviations as on the tree under test
     if kind == "nested":
         args[1] = to_tuple(args[1])
@@ -1038,7 +1195,7 @@ def to_tuple(x):
 
 
 MANIFEST = {
-    "text": "Lean theorems over the reals about the model of tf_pwa.phasespace (templates/Phsp.lean.in, instantiated at R for proofs and at Float for execution): get_p is increasing in M and decreasing in a daughter mass above threshold and is 0 in the clamp branch (q_monotone_M, q_monotone_a, q_clamped); for EVERY number of bodies, all non-negative masses with positive Q value and every mass point generate_mass can produce, 0 <= acceptance weight <= 1 with or without importance factor (weight_le_one, weight_le_one_generated; list induction), while on the bare mass_range box the bound is false (weight_exceeds_one_off_domain); proposal density x weight = C * prod q_i (flat_density); if generate(N) returns it returns exactly N events for every stream of draws and every refill guess (exact_count, refill_enough); the momenta of every generated event add up to (m0,0,0,0) and every particle is on its mass shell (momentum_sum, on_shell, two_body_energy; regular boost branch for the shell clause) and for nested chains of ANY nesting the final-state momenta add up to (m0,0,0,0) when every node's generator output does (chain_momentum_sum, structural induction over the struct; chain_consumes; tree_boost_sum/_shell/_leaves), and, when in addition the outputs are on the daughters' mass shells and every nested daughter's boost is in the regular branch, every final particle is on its mass shell and every intermediate state sits on its fixed mass shell and equals the sum of the momenta below it (chain_structure, chain_on_shell, chain_intermediate_mass; structural induction, every nesting); the optional cal_max_weight() only rescales the weight by 1/(1.001 weight(x*)) and keeps it <= 1 iff the optimiser's point x* is within 0.1% of the maximum (calmax_rescales, calmax_weight_le_one_iff, calmax_weight_exceeds_one_example). The same text, fed the uniform numbers recorded from a patched tf.random.uniform, is compared with PhaseSpaceGenerator / generate_phsp (masses, importances, weights, accept/refill sequence, momenta, nested chains). Flatness of the accepted sample and termination of the refill loop are validated statistically, not proved.",
-    "note": "Model = templates/Phsp.lean.in (imports the boost of templates/Kin.lean.in): get_p (3 variants: tensor, Python-float M, all Python floats, with the float32 rounding of an unfixed tree selectable by a flag the harness observes), set_decay/wtMax, get_mass_range, generate_mass, mass_importances, get_weight, flatten_mass, refill loop incl. the n_iter2 guess formula, generate_momentum(_i), _get_generator/_restruct_pi/tree_boost. Uniform numbers are an input (list of draws, one per tf.random.uniform call, shape-checked). Correspondence: n = 2..6, massless and near-threshold daughters (Q down to 1e-7 relative), corner uniforms 0 and 1-2^-53, N in {1,7,1000(,5000)}, nested structs to depth 4; tolerance 1e-12..1e-13 x (1 + m0/Q) relative to m0 (1e-7 on exact corners of the mass range where q is the root of a rounding-level number). Search (model independent, on the implementation): exact count and shapes, |p^2-m^2| and |sum p-(m0,0,0,0)| <= 2e-13 (1+gamma^2), nested intermediate masses, weights in [0,1] on random + corner/edge scans of the uniform cube, chi^2 tests of the 3-body Dalitz plot (uniformised through the analytic marginal) and of m(i,j) spectra for n = 4..6 against numerically integrated recursive phase-space spectra, alarm threshold p < 1e-9 per test. Finding (fixed in /repo): get_p passed Python-float arguments through float32 (energy conserved only to ~1e-8 m0), key get_p:float32-python-scalars. cal_max_weight() is modelled with the scipy optimiser's returned point as a parameter (recorded and fed to the model); that the optimiser finds the global maximum is not verified and often false on the implementation (candidate finding cal_max_weight:weight-range, opt-in scan VERIF_C10_CALMAX=1, default paths never call it). Not modelled: user-supplied mass_generator[i] proposals (no 1/g correction in the code by design; weight_le_one still covers any mass point inside the domain).",
+    "text": "Lean theorems over the reals about the model of tf_pwa.phasespace (templates/Phsp.lean.in, instantiated at R for proofs and at Float for execution): get_p is increasing in M and decreasing in a daughter mass above threshold and is 0 in the clamp branch (q_monotone_M, q_monotone_a, q_clamped); for EVERY number of bodies, all non-negative masses with positive Q value and every mass point generate_mass can produce, 0 <= acceptance weight <= 1 with or without importance factor (weight_le_one, weight_le_one_generated; list induction), while on the bare mass_range box the bound is false (weight_exceeds_one_off_domain); proposal density x weight = C * prod q_i (flat_density); if generate(N) returns it returns exactly N events for every stream of draws and every refill guess (exact_count, refill_enough); the momenta of every generated event add up to (m0,0,0,0) and every particle is on its mass shell (momentum_sum, on_shell, two_body_energy; regular boost branch for the shell clause) and for nested chains of ANY nesting the final-state momenta add up to (m0,0,0,0) when every node's generator output does (chain_momentum_sum, structural induction over the struct; chain_consumes; tree_boost_sum/_shell/_leaves), and, when in addition the outputs are on the daughters' mass shells and every nested daughter's boost is in the regular branch, every final particle is on its mass shell and every intermediate state sits on its fixed mass shell and equals the sum of the momenta below it (chain_structure, chain_on_shell, chain_intermediate_mass; structural induction, every nesting); the optional cal_max_weight() only rescales the weight by 1/(1.001 weight(x*)) and keeps it <= 1 iff the optimiser's point x* is within 0.1% of the maximum (calmax_rescales, calmax_weight_le_one_iff, calmax_weight_exceeds_one_example). Round 4 (Props/C10c.lean, C10d.lean): nested chains IN FULL for the composition _restruct_pi o generate_momentum (chain_on_shell_full: for every struct and every per-node input in the code's regime, every final and every intermediate particle is on its mass shell and momenta add up at every vertex; the GoodNode hypothesis of chain_structure is discharged by momentum_sum, on_shell and the new generated_energy_positive / boost_keeps_energy_positive); exact count on EVERY keyword path of generate(N, force, flatten, importances) (exact_count_all_paths: exactly N events if force or flatten=False or two-body, at most N for force=False, N weights for flatten=False; generateOpt_default ties the default path to exact_count), for ChainGenerator.generate (exact_count_chain, chain_run_counts) and applications.gen_mc (gen_mc_rows); the weight numerator obeys the phase-space recursion R_n(m0; m1, rest; .., M) = R_{n-1}(M; rest; ..) q(m0; M, m1) for every n and equals the textbook recursive spectrum (weight_recursion, weight_is_lips, flat_density_lips); accept/reject is a pointwise thinning (accept_iff, accepted_rows) whose accepted fraction on the K-grid of uniforms is exactly ceil(K weight) because 0 <= weight <= 1, so proposal x accepted fraction is within proposal/K of C * R_n (accept_count_grid, accepted_density; reuses grid_count of C20f). The same text, fed the uniform numbers recorded from a patched tf.random.uniform, is compared with PhaseSpaceGenerator / generate_phsp (masses, importances, weights, accept/refill sequence, momenta, nested chains) and, new, with generate(N, force, flatten, importances) on all six non-default keyword combinations and applications.gen_mc. Flatness of the accepted sample and termination of the refill loop are validated statistically, not proved.",
+    "note": "Model = templates/Phsp.lean.in (imports the boost of templates/Kin.lean.in): get_p (3 variants: tensor, Python-float M, all Python floats, with the float32 rounding of an unfixed tree selectable by a flag the harness observes), set_decay/wtMax, get_mass_range, generate_mass, mass_importances, get_weight, flatten_mass, refill loop incl. the n_iter2 guess formula, generate_momentum(_i), _get_generator/_restruct_pi/tree_boost. Uniform numbers are an input (list of draws, one per tf.random.uniform call, shape-checked). Correspondence: n = 2..6, massless and near-threshold daughters (Q down to 1e-7 relative), corner uniforms 0 and 1-2^-53, N in {1,7,1000(,5000)}, nested structs to depth 4; tolerance 1e-12..1e-13 x (1 + m0/Q) relative to m0 (1e-7 on exact corners of the mass range where q is the root of a rounding-level number). Search (model independent, on the implementation): exact count and shapes, |p^2-m^2| and |sum p-(m0,0,0,0)| <= 2e-13 (1+gamma^2), nested intermediate masses, weights in [0,1] on random + corner/edge scans of the uniform cube, chi^2 tests of the 3-body Dalitz plot (uniformised through the analytic marginal) and of m(i,j) spectra for n = 4..6 against numerically integrated recursive phase-space spectra, alarm threshold p < 1e-9 per test. Finding (fixed in /repo): get_p passed Python-float arguments through float32 (energy conserved only to ~1e-8 m0), key get_p:float32-python-scalars. cal_max_weight() is modelled with the scipy optimiser's returned point as a parameter (recorded and fed to the model); that the optimiser finds the global maximum is not verified and often false on the implementation (candidate finding cal_max_weight:weight-range, opt-in scan VERIF_C10_CALMAX=1, default paths never call it). Round 4: generateOpt / genMc added to the template (ops geno, genmc), search case `keywords` checks the count contract, weight range and event physics of the non-default keyword paths on the implementation. cal_max_weight DECIDED: only opt-in arguments (cal_max / cal_phsp_max, default False) reach it; a weight above the returned maximum does occur there (6-body example in ASSUMPTIONS: 75% of weights > 1), kept as candidate finding outside the default alarm set. Observation (opt-in path, not alarmed): generate(importances=False) applies the importance factor in refill batches anyway. Not proved: the regular-branch / ordering hypotheses of chain_on_shell_full are hypotheses (the code's regime), not derived from the uniform stream; the link between chainGenerate's per-event rows and generateMomentum is by definition of momentaB (momenta_are_per_event) but the end-to-end statement is not quantified over the draw stream. Not modelled: user-supplied mass_generator[i] proposals (no 1/g correction in the code by design; weight_le_one still covers any mass point inside the domain).",
     "technique": "Lean 4 proof over the reals (list induction, polynomial certificates, C11 boost invariance) of one template instantiated at Float for differential correspondence on a harness-fed random stream; statistical validation of flatness",
 }
